@@ -199,6 +199,10 @@ func (rt *runtime) cmplEvaluateNodeBracketExpression(node *nodeBracketExpression
 func (rt *runtime) cmplEvaluateNodeCallExpression(node *nodeCallExpression, withArgumentList []interface{}) Value {
 	this := Value{}
 	callee := rt.cmplEvaluateNodeExpression(node.callee)
+	// 11.2.3 step 2: GetValue(ref) comes before the arguments are evaluated (an unresolvable
+	// callee is a ReferenceError whatever the arguments do, a getter runs first); whether the
+	// value is callable is tested after them (step 4-5).
+	vl := callee.resolve()
 
 	argumentList := []Value{}
 	if withArgumentList != nil {
@@ -246,7 +250,6 @@ func (rt *runtime) cmplEvaluateNodeCallExpression(node *nodeCallExpression, with
 		file:   rt.scope.frame.file,
 	}
 
-	vl := callee.resolve()
 	if !vl.IsFunction() {
 		if name == "" {
 			// FIXME Maybe typeof?
@@ -285,6 +288,7 @@ func (rt *runtime) cmplEvaluateNodeDotExpression(node *nodeDotExpression) Value 
 
 func (rt *runtime) cmplEvaluateNodeNewExpression(node *nodeNewExpression) Value {
 	callee := rt.cmplEvaluateNodeExpression(node.callee)
+	vl := callee.resolve() // 11.2.2 step 2: GetValue(ref) before the arguments
 
 	argumentList := []Value{}
 	for _, argumentNode := range node.argumentList {
@@ -313,7 +317,6 @@ func (rt *runtime) cmplEvaluateNodeNewExpression(node *nodeNewExpression) Value 
 		atv = at(callee.idx)
 	}
 
-	vl := callee.resolve()
 	if !vl.IsFunction() {
 		if name == "" {
 			// FIXME Maybe typeof?
